@@ -76,6 +76,15 @@ pub struct CaseA {
     /// reference store only: a lookup that matches nothing answers Ok(empty list) instead of NoCredentials
     #[serde(default)]
     pub empty_ok: bool,
+    /// reference store, assertions: the first lookup fails with this status byte (whatever the authenticator does then,
+    /// an assertion it produces must still respect RP and allow list)
+    #[serde(default)]
+    pub find_fault: Option<u8>,
+    /// reference store, registrations with a non-empty exclude list: while the user is asked, 1 = a credential of the RP
+    /// with the first named id arrives, 2 = the named credentials of the RP are removed (what is held when the user has
+    /// answered decides)
+    #[serde(default)]
+    pub prompt_change: u8,
 }
 
 /// credential ids of varying length (1..=255 bytes, incl. lengths an authenticator of this library never mints)
@@ -137,6 +146,34 @@ fn run_a<S: StoreAccess>(ctx: &mut Ctx, mut store: S, c: &CaseA, ref_handle: Opt
     let descriptors = ids.as_ref().map(|l| l.iter().enumerate().map(|(n, (i, t))| cer::descriptor_full(i, *t, (i.len() + n) as u8)).collect::<Vec<_>>());
     let named: Option<Vec<Vec<u8>>> = ids.as_ref().filter(|l| !l.is_empty()).map(|l| l.iter().map(|(i, _)| i.clone()).collect());
     let uv = ScriptedUv::new(UvScript::verified());
+    // what is held once the user has answered
+    let mut creds = creds;
+    let mut faulted = false;
+    if let Some(r) = &ref_handle {
+        if let (false, Some(code)) = (c.create, c.find_fault) {
+            r.set_faults([(0usize, code)].into_iter().collect());
+            faulted = true;
+            ctx.class("authenticator/first lookup fails");
+        }
+        if let (true, Some(n), 1..=2) = (c.create, &named, c.prompt_change % 3) {
+            let r2 = r.clone();
+            if c.prompt_change % 3 == 1 {
+                if !creds.iter().any(|p| p.rp_id == rp && p.credential_id.as_slice() == n[0].as_slice()) {
+                    let late = make_passkey(777, rp, &n[0], Some(b"user-0"), None, None);
+                    creds.push(late.clone());
+                    uv.on_next_check(move || r2.0.lock().unwrap().creds.push(late));
+                    ctx.class("authenticator/a named credential arrives during the prompt");
+                }
+            } else {
+                let n2 = n.clone();
+                let rp2 = rp.to_string();
+                creds.retain(|p| !(p.rp_id == rp && n.contains(&p.credential_id.to_vec())));
+                uv.on_next_check(move || r2.0.lock().unwrap().creds.retain(|p| !(p.rp_id == rp2 && n2.contains(&p.credential_id.to_vec()))));
+                ctx.class("authenticator/the named credentials are removed during the prompt");
+            }
+        }
+    }
+    let before = if ref_handle.is_some() && c.create && c.prompt_change % 3 != 0 { creds.iter().map(snap).collect() } else { before };
     let mut auth = cer::build_authenticator(store, uv, &AuthCfg::default());
     let held_for_rp: Vec<&Passkey> = creds.iter().filter(|p| p.rp_id == rp).collect();
     let names_foreign = named.as_ref().is_some_and(|n| creds.iter().any(|p| p.rp_id != rp && n.contains(&p.credential_id.to_vec())));
@@ -258,6 +295,8 @@ fn run_a<S: StoreAccess>(ctx: &mut Ctx, mut store: S, c: &CaseA, ref_handle: Opt
                     if named.is_some() {
                         // the statement restricts which credential a non-empty list may select, it does not promise success
                         ctx.measure("non-empty allow list with an eligible credential, assertion failed", 1);
+                    } else if faulted {
+                        ctx.measure("assertion failed while the first lookup was made to fail", 1);
                     } else {
                         // "an absent or empty allow list selects the first credential the store lists": there is one
                         return Err(format!("a credential is held for {rp:?} and the allow list is absent or empty, but the assertion failed with 0x{:02X}", u8::from(e)));
@@ -618,7 +657,10 @@ fn case_a() -> impl Strategy<Value = CaseA> {
     (prop_oneof![4 => Just(Kind::Ref), 2 => Just(Kind::Memory), 1 => Just(Kind::OptionSlot), 1 => Just(Kind::ArcMutexMemory)], proptest::collection::vec(cred_desc(), 0..9), any::<bool>(), 0usize..5, list_sel())
         .prop_map(|(kind, contents, create, rp, list)| {
             let empty_ok = kind == Kind::Ref && (contents.len() + rp) % 2 == 1;
-            CaseA { kind, contents, create, rp, list, empty_ok }
+            let sel = contents.iter().map(|c| c.user as usize).sum::<usize>();
+            let find_fault = (kind == Kind::Ref && !create && sel % 4 == 0).then_some([0x28u8, 0x7F, 0x01, 0x06][sel / 4 % 4]);
+            let prompt_change = if kind == Kind::Ref && create { (sel % 5) as u8 } else { 0 };
+            CaseA { kind, contents, create, rp, list, empty_ok, find_fault, prompt_change }
         })
 }
 
@@ -640,7 +682,7 @@ fn case_b() -> impl Strategy<Value = CaseB> {
 
 pub fn run(ctx: &mut Ctx) {
     let fs = ctx.first_shard();
-    ctx.rule = "(A) authenticator over the reference store (contract semantics, call log), MemoryStore, the Option slot and Arc<Mutex<MemoryStore>>: contents of 0-8 credentials over 5 RP IDs (two in a parent/child domain relation, two differing only in letter case) with equal user handles across RPs; assertions and registrations with every allow/exclude-list shape (absent, empty, hits, misses, near misses — half of a held id, a held id plus or minus one byte, the empty id —, ids of another RP, unknown descriptor types); the reference store answers a miss with NoCredentials or with Ok(empty). (B) contract conformance of every shipped store and lock wrapper on generated save/update/query sequences. (C) the six lock wrappers with another task holding the lock (mutex / write lock / read lock) while a lookup, and through the Arc wrappers an update or a save, is issued: the call may wait but must answer per the contract. Non-trivial = (A) at least two RPs populated and a list that names a foreign RP's id, (B) a query whose expected result differs from 'all credentials'; distinct by case / by (store, contents, query).".into();
+    ctx.rule = "(A) authenticator over the reference store (contract semantics, call log), MemoryStore, the Option slot and Arc<Mutex<MemoryStore>>: contents of 0-8 credentials over 5 RP IDs (two in a parent/child domain relation, two differing only in letter case) with equal user handles across RPs; assertions and registrations with every allow/exclude-list shape (absent, empty, hits, misses, near misses — half of a held id, a held id plus or minus one byte, the empty id —, ids of another RP, unknown descriptor types); the reference store answers a miss with NoCredentials or with Ok(empty), may fail the first lookup of an assertion, and may gain or lose the named credentials while the user is asked during a registration. (B) contract conformance of every shipped store and lock wrapper on generated save/update/query sequences. (C) the six lock wrappers with another task holding the lock (mutex / write lock / read lock) while a lookup, and through the Arc wrappers an update or a save, is issued: the call may wait but must answer per the contract. Non-trivial = (A) at least two RPs populated and a list that names a foreign RP's id, (B) a query whose expected result differs from 'all credentials'; distinct by case / by (store, contents, query).".into();
     ctx.assumptions = vec![
         "lookup contract: result = { c | c.rp_id == rp_id and (ids is None or c.id in ids) } as a set; an empty result may be Ok([]) or NoCredentials".into(),
         "'first credential the store lists' is asserted on the reference store, whose listing order is insertion order".into(),
@@ -665,7 +707,7 @@ pub fn run(ctx: &mut Ctx) {
     for kind in [Kind::Ref, Kind::Memory, Kind::OptionSlot, Kind::ArcMutexMemory].into_iter().filter(|_| fs) {
         for list in [ListSel::Empty, ListSel::Absent, ListSel::Ids(vec![IdSel::Miss(1, false)]), ListSel::Ids(vec![IdSel::Miss(1, true)]), ListSel::Ids(vec![IdSel::Held(0, false)])] {
             for create in [true, false] {
-                let c = CaseA { kind, contents: vec![CredDesc { rp: 0, user: 0, counter: None }], create, rp: 0, list: list.clone(), empty_ok: false };
+                let c = CaseA { kind, contents: vec![CredDesc { rp: 0, user: 0, counter: None }], create, rp: 0, list: list.clone(), empty_ok: false, find_fault: None, prompt_change: 0 };
                 if let Err(e) = check_a(ctx, &c) {
                     ctx.violation("authenticator-fixed", json!(c), &e);
                 }
